@@ -1059,6 +1059,14 @@ pid_t vs_waitpid(pid_t pid, int *status, int options)
   }
   if (f) {
     r->faulted = 1;
+    if (f->err == ECHILD && !g_dry) {
+      // ECHILD means the kernel has no such child any more (e.g. it was
+      // auto-reaped): make that true before reporting it.
+      int st2;
+      if (waitpid(pid, &st2, 0) == pid) {
+        g_child[ci].live = 0;
+      }
+    }
     errno = f->err;
     FINISH(r, -1);
     return -1;
